@@ -51,11 +51,17 @@ def generate(tier, rng):
             B = {"kind": "I", "name": "B", "entries": [], "min": 0, "max": 50}
         else:
             B = gen.random_itier(rng, tmax=rng.choice([50, 70]), maxn=7, name="B", long_p=0.015)
-        cases.append({"op": rng.choice(list(OPS)), "tier": A, "args": {"other": B}, "scale": sc})
+        args = {"other": B}
+        if B == A and rng.random() < 0.6:
+            args["same"] = True                    # the operand IS the receiver: A.union(A) is judged like any other pair
+        cases.append({"op": rng.choice(list(OPS)), "tier": A, "args": args, "scale": sc})
     for _ in range(300 if tier == "quick" else 8000):
         A = gen.random_ptier(rng, tmax=20, maxn=6, name="A", long_p=0.015)
         B = gen.random_ptier(rng, tmax=25, maxn=6, name="B", long_p=0.015)
-        cases.append({"op": "union", "tier": A, "args": {"other": B}, "scale": gen.pick_scale(rng)})
+        args = {"other": B}
+        if rng.random() < 0.06:
+            args = {"other": A, "same": True}
+        cases.append({"op": "union", "tier": A, "args": args, "scale": gen.pick_scale(rng)})
     for _ in range(300 if tier == "quick" else 3000):
         tiers = []
         for k in range(rng.randint(2, 5)):
